@@ -119,6 +119,21 @@ def run(tier: str, seed: int) -> int:
             if not member:
                 if "ok" in impl:
                     res.spec_failures.append({"space": sp, "name": n, "impl": impl, "what": "a name foreign to this key space is accepted"})
+                if kind != "enum":
+                    # ... whatever stands next to it: no value (YAML `name:`), an empty container, next to a name of the space
+                    own = next(iter(names), None)
+                    own_child = entry[3].get(own) if own is not None else None
+                    variants = [{n: None}, {n: {}}, {n: []}, {n: ""}]
+                    if own is not None and kind == "keyValue":
+                        variants.append({own: sample_for(descs, order, own_child) if own_child is not None else 0, n: None})
+                    for vobj in variants:
+                        try:
+                            vb = cls.from_obj(__import__("copy").deepcopy(vobj)).to_cbor()
+                        except BaseException:  # noqa
+                            continue
+                        res.spec_failures.append({"space": sp, "name": n, "description": vobj, "encoded": vb.hex(),
+                                                  "what": "a name foreign to this key space is accepted (and dropped) when it stands there without a value"})
+                        break
                 continue
             if "ok" not in impl:
                 res.spec_failures.append({"space": sp, "name": n, "impl": impl, "what": "a name of this key space is rejected"})
